@@ -241,6 +241,19 @@ def worker(case, led):
                     led.check(okm, "post:Mps.calc_2site_mutual_entropy:definition", "Mps.calc_2site_mutual_entropy", "mutual entropy differs", key + ("sm",), fields, rep)
                     led.check(np.abs(S.dense(an) - vn).max() <= 1e-12, "frame:Mps.calc_entropy:state_unchanged", "Mps.calc_entropy", "measuring changed the state",
                               key + ("frame",), fields, rep)
+                    # states that are not normalised (slightly or grossly): the entropies are those of rho / Tr rho, i.e. of the normalised dense vector
+                    ref1 = [entropy(np.linalg.eigvalsh(rdm_ref(vn, dims, [i]))) for i in range(n)]
+                    for sc in (0.97, 1.04, 3.0):
+                        au = an.scale(sc)
+                        try:
+                            eu1 = au.calc_entropy("1site")
+                            eub = np.asarray(au.calc_entropy("bond"))
+                            oku = all(abs(eu1[i] - ref1[i]) <= 1e-8 for i in range(n)) and len(eub) == n - 1 and np.abs(eub - np.array(refb)).max() <= 1e-8
+                            led.check(oku, "post:Mps.calc_entropy:unnormalised_state_has_the_entropies_of_the_normalised_one", "Mps.calc_entropy",
+                                      f"norm {sc}: 1-site {[float(eu1[i]) for i in range(n)]} vs {ref1}; bond {eub} vs {refb}", key + ("unnorm", sc), dict(fields, norm=sc), dict(rep, norm=sc))
+                        except Exception as e:
+                            led.check(False, "post:Mps.calc_entropy:unnormalised_total", "Mps.calc_entropy", f"norm {sc}: raised {type(e).__name__}: {e}", key + ("unnorm", sc),
+                                      dict(fields, norm=sc), dict(rep, norm=sc))
             # ---- density-operator form: <O> = Tr(A^dagger O A)
             try:
                 A0 = MpDm.from_mps(psi)
